@@ -23,8 +23,8 @@ T_CREATE, T_DELETE, T_LINE, T_MOD, T_CONFIG = 0, 1, 2, 5, 6
 RAFT_TYPES = [1, 4, 5]               # LogNoop, LogBarrier, LogConfiguration
 
 # mirrors of the Prelude* definitions of FSM.tla
-def _e(kind, cls, ts, sess, cmid, exp):
-    return {"kind": kind, "cls": cls, "ts": ts, "sess": sess, "cmid": cmid, "exp": exp}
+def _e(kind, cls, ts, sess, cmid, exp, ms=0):
+    return {"kind": kind, "cls": cls, "ts": ts, "sess": sess, "cmid": cmid, "exp": exp, "ms": ms}
 
 
 PRELUDES = {
@@ -41,6 +41,7 @@ class Abs:
     def __init__(self):
         self.sess = set()
         self.marks = {}      # idx -> sess
+        self.maxs = 0        # MaxSessions in force
 
     def nlines(self, s):
         return sum(1 for v in self.marks.values() if v == s)
@@ -50,7 +51,10 @@ class Abs:
             return
         c = e["cls"]
         if c == "create":
-            self.sess.add(i)
+            if not (self.maxs > 0 and len(self.sess) >= self.maxs):     # else refused at the limit
+                self.sess.add(i)
+        elif c == "config":
+            self.maxs = e.get("ms", 0)
         elif c == "line" and e["sess"] in self.sess:
             self.marks[i] = e["sess"]
         elif c == "delete" and e["sess"] in self.sess:
@@ -75,6 +79,8 @@ def concrete_entry(i, e, st):
         return {"idx": i, "kind": "cmd", "type": T_DELETE, "ts": ts, "sess": sess, "data": "bye"}
     if c == "config":
         data = "MaxChannels = 50\n"
+        if e.get("ms"):
+            data += "MaxSessions = %d\n" % e["ms"]
         if e["exp"]:
             data += 'SessionExpiration = "%ds"\n' % (e["exp"] * 10)
         return {"idx": i, "kind": "cmd", "type": T_CONFIG, "ts": ts, "rev": i, "data": data}
@@ -254,6 +260,11 @@ class Judge:
             raise vlib.Inconclusive("harness error in %s step %s: %s" % (ev["sched"], ev["n"], err))
         if err and not (a == "SnapshotTake" and "first index of ircstore (0)" in err):
             bad.append(("error-in-%s" % a, "%s failed on the real code: %s" % (a, err[:200])))
+        fin = ev.get("final")
+        if a == "End" and fin and not fin["eq"]:
+            bad.append(("P1-active-probe-differs-at-End",
+                        "JOIN/PRIVMSG/TOPIC probes sent from every session are answered differently than by the "
+                        "never-snapshotting reference: %s" % fin.get("diff", "")[:300]))
         post, chk = ev.get("post"), ev.get("chk")
         if not post or not chk:
             return bad
@@ -359,8 +370,8 @@ judge_all.sigs = {}
 # trace validation input (FSMTrace.tla)
 def _absstate(a):
     if a is None:
-        return {"sess": [], "marks": [], "marker": [], "rev": 0, "cexp": -1}
-    return {"sess": a["sess"], "marks": a["marks"],
+        return {"sess": [], "marks": [], "marker": [], "rev": 0, "cexp": -1, "maxs": 0}
+    return {"sess": a["sess"], "marks": a["marks"], "maxs": a.get("maxs", 0),
             "marker": [[int(k), v] for k, v in sorted(a["marker"].items(), key=lambda kv: int(kv[0]))],
             "rev": a["rev"], "cexp": a["cexp"] // UNIT if a["cexp"] % UNIT == 0 else -2}
 
@@ -696,7 +707,8 @@ def gen_random(rng, name, n_entries=None, proto=None):
     cmid = 100
     style = rng.choice(["mono", "mono", "mixed", "allold"])
     cur_exp = 600
-    boundary_ts = []
+    limit = [0]          # MaxSessions in force (as far as the generator can tell)
+    prev_limit = 0
 
     def ts_for(i):
         if style == "allold":
@@ -716,15 +728,25 @@ def gen_random(rng, name, n_entries=None, proto=None):
             log.append({"idx": i, "kind": "raft", "rafttype": rng.choice(RAFT_TYPES)})
             continue
         if r < 0.22 or not live:
-            log.append({"idx": i, "kind": "cmd", "type": T_CREATE, "ts": ts, "data": "auth%d" % i})
-            sessions.append({"id": i, "reg": 0, "nick": None, "chans": set(), "gone": False})
+            log.append({"idx": i, "kind": "cmd", "type": T_CREATE, "ts": ts, "data": "authauth%d" % i})
+            nlive = len([x for x in sessions if not x["gone"] and not x.get("ghost")])
+            refused = limit[0] > 0 and nlive >= limit[0]       # ErrSessionLimitReached: the entry stays in the log
+            if not refused or rng.random() < 0.3:
+                sessions.append({"id": i, "reg": 0, "nick": None, "chans": set(), "gone": False, "ghost": refused})
             continue
         if r < 0.30:
             e = rng.choice(exps)
             cfgrev = i
-            data = 'MaxChannels = 40\n[IRC]\n  [[IRC.Operators]]\n  Name = "op"\n  Password = "pw"\n'
+            prev_limit = limit[0]
+            data = 'MaxChannels = 40\n'
+            limit[0] = 0
+            if rng.random() < 0.35:
+                limit[0] = rng.choice([1, 2, 3])
+                data += 'MaxSessions = %d\n' % limit[0]
+            data += '[IRC]\n  [[IRC.Operators]]\n  Name = "op"\n  Password = "pw"\n'
             if rng.random() < 0.15:
                 data = "SessionExpiration = {broken"
+                limit[0] = prev_limit
             elif e is not None:
                 data = 'SessionExpiration = "%ds"\n' % e + data
                 cur_exp = e
@@ -823,5 +845,96 @@ def gen_random(rng, name, n_entries=None, proto=None):
     # always end with: everything applied, a persisted snapshot, a process start
     steps += [{"a": "Apply", "i": 0}] * 3 + [{"a": "SnapshotTake", "now": pick_now()}, {"a": "PersistOK"}, {"a": "Restart"},
                                              {"a": "SnapshotTake", "now": pick_now()}, {"a": "PersistOK"}, {"a": "Restart"}]
+    return {"name": name, "proto": rng.random() < 0.6 if proto is None else proto, "log": log, "steps": steps,
+            "mod": [], "abs": False, "twice": True, "prestore": 0, "lenient": True}
+
+
+HMAC_SECRET = "00112233445566778899aabbccddeeff00112233445566778899aabbccddeeff"
+
+
+def gen_halfreg(rng, name, proto=None):
+    """Sessions in intermediate registration states (NICK only, USER only, PASS only, NICK+USER with the
+    login pending because a captcha is required, ...) that are older than the horizon when a snapshot
+    folds them, followed after a restore / process start by commands whose outcome depends on that
+    per-session state.  Judged by the differential oracle."""
+    Sx = 10**9
+    log = []
+    old = lambda: T0 + rng.randint(0, 20) * Sx
+    young = lambda: T0 + (130 + rng.randint(0, 9)) * Sx
+    cm = [50]
+
+    def add(e):
+        e["idx"] = len(log) + 1
+        log.append(e)
+        return e["idx"]
+
+    def line(sess, data, ts):
+        cm[0] += rng.randint(1, 3)
+        return add({"kind": "cmd", "type": T_LINE, "ts": ts, "sess": sess, "cmid": cm[0], "data": data})
+
+    def maybe_gap():
+        if rng.random() < 0.2:
+            add({"kind": "raft", "rafttype": rng.choice(RAFT_TYPES)})
+
+    captcha = rng.random() < 0.7
+    exp = rng.choice(["45s", "45s", "45s", "60s"])
+    cfg = 'SessionExpiration = "%s"\n' % exp
+    if captcha:
+        cfg += 'CaptchaRequiredForLogin = true\nCaptchaURL = "http://captcha.example/"\nCaptchaHMACSecret = "%s"\n' % HMAC_SECRET
+    cfg_first = rng.random() < 0.5
+    anchors = []
+    if not cfg_first:
+        # a fully registered session from before the captcha requirement
+        a = add({"kind": "cmd", "type": T_CREATE, "ts": old(), "data": "authanchor"})
+        line(a, "NICK anchor", old())
+        line(a, "USER anchor 0 * :Anchor", old())
+        line(a, "JOIN #a", old())
+        anchors.append(a)
+    maybe_gap()
+    add({"kind": "cmd", "type": T_CONFIG, "ts": old(), "rev": 1, "data": cfg})
+    states = ["nick", "nick+user", "user", "pass", "pass+nick", "pass+nick+user", "none", "user+nick"]
+    half = []
+    for k in range(rng.randint(2, 4)):
+        sid = add({"kind": "cmd", "type": T_CREATE, "ts": old(), "data": "authhalf%02d" % k})
+        st = rng.choice(states)
+        for part in st.split("+"):
+            if part == "nick":
+                line(sid, "NICK h%dx" % sid, old())
+            elif part == "user":
+                line(sid, "USER h%d 0 * :Half %d" % (sid, sid), old())
+            elif part == "pass":
+                line(sid, "PASS %s" % rng.choice(["secret", "captcha=bogus.bogus.bogus", "nickserv=x:captcha=zz"]), old())
+        half.append((sid, st))
+        maybe_gap()
+    n_old = len(log)
+    follow = ["JOIN #a", "PRIVMSG #a :hi", "JOIN #b", "TOPIC #a :t", "PING :x", "USER late 0 * :Late", "NICK late%d",
+              "PASS captcha=no.no.no", "PRIVMSG anchor :psst", "WHOIS anchor", "QUIT :bye"]
+    order = list(half) + [(a, "anchor") for a in anchors]
+    rng.shuffle(order)
+    for sid, st in order:
+        for _ in range(rng.randint(1, 3)):
+            f = rng.choice(follow)
+            if "%d" in f:
+                f = f % sid
+            line(sid, f, young())
+    # schedule
+    cut = T0 + 120 * Sx                 # cutoff T0+65s (45s) / T0+50s (60s): the old part is folded, the follow-ups are young
+    far = T0 + 9000 * Sx
+    steps = [{"a": "Apply", "i": i} for i in range(1, n_old + 1)]
+    if rng.random() < 0.3:
+        k = rng.randint(2, max(2, n_old - 1))
+        steps.insert(k, {"a": "SnapshotTake", "now": cut})
+        steps.insert(k + 1, {"a": rng.choice(["PersistOK", "PersistOK", "PersistFail"]), "k": 7})
+    steps += [{"a": "SnapshotTake", "now": rng.choice([cut, cut, far])}, {"a": "PersistOK"}]
+    if rng.random() < 0.4:
+        steps += [{"a": "SnapshotTake", "now": rng.choice([cut, far])}, {"a": "PersistOK"}]
+    steps += [{"a": rng.choice(["Restart", "Restart", "Restore"])}]
+    if rng.random() < 0.3:
+        steps += [{"a": rng.choice(["Restart", "Restore"])}]
+    for i in range(n_old + 1, len(log) + 1):
+        steps.append({"a": "Apply", "i": 0})
+        if rng.random() < 0.15:
+            steps += [{"a": "SnapshotTake", "now": far}, {"a": "PersistOK"}, {"a": rng.choice(["Restart", "Restore"])}]
+    steps += [{"a": "Apply", "i": 0}, {"a": "SnapshotTake", "now": far}, {"a": "PersistOK"}, {"a": "Restart"}]
     return {"name": name, "proto": rng.random() < 0.6 if proto is None else proto, "log": log, "steps": steps,
             "mod": [], "abs": False, "twice": True, "prestore": 0, "lenient": True}
